@@ -21,7 +21,7 @@ ASSUMPTIONS = [
 CASES = {"quick": 8000, "thorough": 300000}
 MIN_CASES = {"quick": 3000, "thorough": 60000}
 REQUIRED_CLASSES = ["stog", "near_gap", "near_overhang", "near_overlap", "dup_trunk", "dup_branch", "bag", "equal_area"]
-REQUIRED_COUNTERS = ["calls_judged", "judged_true", "judged_false", "roles_checked", "identity_checked", "via:netlist", "via:module", "via:direct", "netlist_kind:soft", "netlist_kind:hard", "netlist_kind:fixed", "re_recognition_after_in_place_change"]
+REQUIRED_COUNTERS = ["calls_judged", "judged_true", "judged_false", "roles_checked", "identity_checked", "via:netlist", "via:module", "via:direct", "netlist_kind:soft", "netlist_kind:hard", "netlist_kind:fixed", "re_recognition_after_in_place_change", "via:netlist_api"]
 
 _g = None
 _mod = None
@@ -146,7 +146,7 @@ def generate(rng, tier, i):
             r[1] += max(0.0, -miny)
     rects = rects[:9]
     rng.shuffle(rects) if cls in ("bag",) else None
-    via = rng.choice(["direct", "direct", "module", "netlist"])
+    via = rng.choice(["direct", "direct", "module", "netlist", "netlist_api"])
     return {"cls": cls, "fam": fam, "rects": rects, "via": via, "pseed": rng.randrange(1 << 30)}
 
 
@@ -223,7 +223,47 @@ def _snapshot(objs):
     return [(id(o), o.center.x, o.center.y, o.shape.w, o.shape.h, o.region, o.fixed, o.hard) for o in objs]
 
 
+def check_netlist_api(case, ctx):
+    """recognition through the Netlist API: create_squares + create_stogs (a lone square is its own trunk), assign_rectangles + create_stogs"""
+    g = _g
+    specs = case["rects"]
+    g.Rectangle.undefine_epsilon()
+    a = sum(s[2] * s[3] for s in specs)
+    ok, nl = ctx.call(_net.Netlist, {"Modules": {"A": {"area": a, "center": [specs[0][0], specs[0][1]]}, "B": {"area": a, "center": [specs[0][0] * 2 + 1, specs[0][1]]}}})
+    if not ok:
+        ctx.violation("netlist_raised", f"{nl!r}")
+        return
+    ctx.count("netlist_api_cases")
+    nl.create_squares()
+    ok, e = ctx.call(nl.create_stogs)
+    for m in nl.modules:
+        if not ok or not m.has_stog or m.rectangles[0].location.name != "TRUNK":
+            ctx.violation("single_rectangle_not_a_trunk", f"after create_squares + create_stogs module {m.name} has_stog={m.has_stog}, role {m.rectangles[0].location.name if m.num_rectangles else None} ({e!r})")
+    nl.assign_rectangles({"A": [list(s) for s in specs], "B": [list(specs[0])]})
+    ok, e = ctx.call(nl.create_stogs)
+    if not ok:
+        ctx.violation("raised", f"create_stogs raised {e!r}")
+        return
+    mA, mB = nl.get_module("A"), nl.get_module("B")
+    if not mB.has_stog:
+        ctx.violation("single_rectangle_not_a_trunk", "a module given one rectangle through assign_rectangles is not its own trunk after create_stogs")
+    eps, aeps = F(g.Rectangle.distance_epsilon()), F(g.Rectangle.area_epsilon())
+    X = [XR.of(o) for o in mA.rectangles]
+    import math
+    noise = F(4 * math.ulp(max(max(abs(v) for v in x.as_floats()) for x in X)))
+    ref = ref_trunks(X, eps, aeps, noise)
+    exists = True if any(st is True for st, _ in ref) else (False if all(st is False for st, _ in ref) else None)
+    if len(X) == 1:
+        exists = True
+    if exists is not None and bool(mA.has_stog) != exists:
+        ctx.violation("wrong_verdict", f"assign_rectangles + create_stogs: has_stog={mA.has_stog}, reference {exists}; rects={specs}")
+
+
 def check(case, ctx):
+    if case.get("via") == "netlist_api":
+        ctx.nontrivial(True)
+        ctx.count("via:netlist_api")
+        return check_netlist_api(case, ctx)
     g = _g
     specs = case["rects"]
     n = len(specs)
